@@ -851,10 +851,12 @@ func enumerateFrameSites(L *Loaded, db *ContractDB) []FrameSite {
 							et := elemTypeOf(cc.Args[0].Type())
 							if sharedNamed(et) {
 								o := c.own(cc.Args[0])
-								// append never changes the visible content (indices < len) of its argument; writing into the
-								// spare capacity of a driver-shared array is recorded as an observation. The result keeps the
-								// ownership of the argument, so later writes through it are still obligations.
-								add(fn, in, "append", "[]"+typeStr(et), o, c.why[cc.Args[0]], okTarget(o), true)
+								// append never changes the visible content (indices < len) of its argument, but it writes into the
+								// spare capacity of its backing array: for a driver-shared array that is a write to shared memory
+								// (racing with any other analyzer that appends to the same slice; defect F28). An obligation since
+								// round 9 (it was an observation before). The result keeps the ownership of the argument, so later
+								// writes through it are obligations too.
+								add(fn, in, "append", "[]"+typeStr(et), o, c.why[cc.Args[0]], okTarget(o), false)
 								// ... unless the argument is (derived from) a re-slice x[lo:hi] without a capacity limit of an
 								// array NilAway does not own: its "spare capacity" is the visible content x[hi:] of the original,
 								// which append overwrites in place.
